@@ -295,12 +295,16 @@ def ctxRemap (sch : Schema) (data : List (Str × Str)) (k : Str) : Except Err St
           | some k' => .ok k'
       else .ok k
 
+/-- `data_rekeyed[remap(k, data)] = v` for one column -/
+def rekeyStep (sch : Schema) (ctx : List (Str × Str)) (acc : List (Str × Str)) (kv : Str × Str) :
+    Except Err (List (Str × Str)) :=
+  match ctxRemap sch ctx kv.1 with
+  | .error e => .error e
+  | .ok k => .ok (aset k kv.2 acc)
+
 /-- `data_rekeyed[k] = v` for each column -/
 def rekey (sch : Schema) (data : List (Str × Str)) : Except Err (List (Str × Str)) :=
-  foldE (fun acc (kv : Str × Str) =>
-      match ctxRemap sch data kv.1 with
-      | .error e => .error e
-      | .ok k => .ok (aset k kv.2 acc)) [] data
+  foldE (rekeyStep sch data) [] data
 
 def hasStar (k : Str) : Bool := k.contains '*'
 def starPrefix (k : Str) : Str := k.takeWhile (· ≠ '*')
